@@ -3,8 +3,9 @@ pub mod par;
 pub mod ratio;
 pub mod report;
 pub mod rng;
+pub mod watch;
 
-pub use env::{explore, replay, Choice, Env, ExploreStats, Kind};
+pub use env::{explore, explore_bounded, replay, Choice, Env, ExploreStats, Kind};
 pub use par::{guarded, par_map, quiet_panics};
 pub use ratio::{binom, factorial, gcd, lcm, lcm_upto, Law, Ratio};
 pub use report::Run;
